@@ -14,9 +14,9 @@ log=/tmp/confirm_$name.log; : > $log
 git apply "$src/patch.diff" || { echo "patch does not apply in worktree"; exit 2; }
 if cargo test --workspace --offline --no-fail-fast >>$log 2>&1; then suite=pass; else suite=FAIL; fi
 mkdir -p "$dir/tests"; cp "$src/demo.rs" "$demo_dst"
-if cargo test --offline -p $crate --test demo_seeded >>$log 2>&1; then demo_with=pass; else demo_with=fail; fi
+if cargo test --offline ${DEMO_FLAGS:-} -p $crate --test demo_seeded >>$log 2>&1; then demo_with=pass; else demo_with=fail; fi
 git apply -R "$src/patch.diff"
-if cargo test --offline -p $crate --test demo_seeded >>$log 2>&1; then demo_without=pass; else demo_without=fail; fi
+if cargo test --offline ${DEMO_FLAGS:-} -p $crate --test demo_seeded >>$log 2>&1; then demo_without=pass; else demo_without=fail; fi
 rm -f "$demo_dst"; git checkout -q -- . ; git clean -qfd -e SEEDED -e target
 echo "$name: suite_with_patch=$suite demo_with_patch=$demo_with demo_without_patch=$demo_without crate=$crate"
 if [ "$suite" = pass ] && [ "$demo_with" = fail ] && [ "$demo_without" = pass ]; then
